@@ -423,6 +423,7 @@ pub fn check_one(out: &mut Out, text: &str, base: &Shape, lw: usize, iw: isize, 
             out.propfail("policies-changed", &format!("{} input={}", cfg_str(lw, iw), sx::qs(text)), &format!("{d} output={}", sx::qs(&o)));
         },
     }
+    if lw == 80 && iw == 2 && std::env::var("C12_DEBUG").is_ok() { eprintln!("---- input\n{text}\n---- output (80,2)\n{o}"); }
     let comments_out = scan_comments(&o);
     let lost = missing_in_order(&comments_in, &comments_out);
     if !lost.is_empty() {
@@ -572,9 +573,45 @@ pub fn run_program(out: &mut Out, r: &mut Rng, text: &str, thorough: bool, exhau
     }
 }
 
+/// lexer / comment-attachment correspondence on texts that need not parse: odd whitespace, `\r`, lexer errors
+pub const LEX_STRESS: &[&str] = &[
+    "", " ", "\n", "// only", "// a\n// b", "//", "a//b", "a // x\r// y\nb", "a\r\n// c\r\nb", "a // t1 \r // t2 \n b", "a\n\n\n// far\n\nb",
+    "a /* not a comment */ b", "a / b", "a / / b", "a /// triple\nb", "?principal ?resource ?principalx ?resourc", "? principal", "1a", "a1 _x __ x_1 007 0",
+    "ifx if iff thenelse then else in inn has like is true false truee permit forbid when unless principal action resource context",
+    "a::b : :: ::: :::: = == === != ! !! < <= <== > >= || | && & + - * % , ; . @ ( ) { } [ ]", "a = b", "a | b", "a & b", "a # b", "a $ b", "a ~ b", "a ^ b", "a ' b", "a ` b", "a \\ b",
+    "\"str\" \"with \\\" quote\" \"// not comment\" // comment \"str\"", "\"unterminated", "\"bs at end\\", "\"bs newline \\\n\"", "\"multi\nline\" x", "\"a\\\\\" b",
+    "a\u{a0}b // nbsp\u{a0}\n c", "a\u{2028}// after LS\nb", "a\u{3000}b\u{85}c\u{b}d\u{c}e", "a\t// tab comment\t \n\tb", "a //\u{a0}trail\u{2003}\nb",
+    "\u{feff}a", "a\u{200b}b", "é", "a é", "// é\na", "a // \u{1F600} emoji\n// second\n\n// third\nb // last", "a // c1\n", "a // c1\n\n", "a\n// eof1\n   //eof2   \n\n", "  // lead1\n//lead2\n a",
+    "permit(principal,action,resource)when{1==1};", "a//\nb", "a//\rb", "a//x\r\r\n\n//y\nb",
+];
+
+fn lexer_stress(out: &mut Out, r: &mut Rng, n: usize) {
+    for t in LEX_STRESS {
+        model_line(out, t, "lex-stress");
+        out.count("lex_stress_lines");
+    }
+    let alphabet: Vec<&str> = vec![
+        "a", "if", "principal", "?principal", "1", "\"s\"", " ", " ", "\n", "\n", "\r", "\t", "//", "// c", "/", ",", ";", ":", "::", "(", ")", "{", "}", "[", "]",
+        "==", "!", "<", ">", "||", "&&", "+", "-", "*", "%", ".", "@", "\u{a0}", "\u{2028}", "!=", "<=", "x_1", "007", "\"a // b\"", "\r\n",
+    ];
+    let bad: Vec<&str> = vec!["\"", "\\", "=", "|", "&", "é", "#", "?", "\"x\\\n\""];
+    for _ in 0..n {
+        let len = 1 + r.below(14);
+        let mut t = String::new();
+        for _ in 0..len { if r.chance(4) { t.push_str(bad[r.below(bad.len())]); } else { t.push_str(alphabet[r.below(alphabet.len())]); } }
+        if lex(&t).is_none() { out.count("lex_stress_errors"); }
+        model_line(out, &t, "lex-soup");
+        out.count("lex_stress_lines");
+    }
+}
+
 pub fn run(args: &Args, out: &mut Out) {
     let mut rng = Rng::new(args.seed);
     let mut g = ExprGen::new(3);
+    if args.replay.is_none() {
+        let mut r = rng.fork();
+        lexer_stress(out, &mut r, if args.thorough { 4000 } else { 1500 });
+    }
     // replay of one stored text
     if let Some(p) = &args.replay {
         let text = std::fs::read_to_string(p).expect("replay file");
